@@ -245,10 +245,10 @@ func runTagKeep(c *core.Ctx) {
 					}
 				case *ssa.Store:
 					if isManifestsField(x.Addr) {
-						if call, ok := x.Val.(*ssa.Call); ok {
+						if call, ok := stripChangeType(x.Val).(*ssa.Call); ok {
 							if h := call.Call.StaticCallee(); h != nil && len(call.Call.Args) >= 2 {
 								if li, pi, ok := listRemover(h); ok && li < len(call.Call.Args) && pi < len(call.Call.Args) {
-									if ld, ok := call.Call.Args[li].(*ssa.UnOp); ok && isManifestsField(ld.X) {
+									if ld, ok := stripChangeType(call.Call.Args[li]).(*ssa.UnOp); ok && isManifestsField(ld.X) {
 										found = append(found, site{"remove", x, call.Call.Args[pi], b})
 									}
 								}
@@ -646,8 +646,14 @@ func removerMethod(h *ssa.Function) (int, bool) {
 
 // listRemover: h takes a slice and a position, overwrites the element at the position and returns the slice shortened.
 func listRemover(h *ssa.Function) (int, int, bool) {
-	if h == nil || len(h.Blocks) == 0 || h.Signature.Recv() != nil || h.Signature.Results().Len() != 1 {
+	if h == nil || len(h.Blocks) == 0 || h.Signature.Results().Len() != 1 {
 		return 0, 0, false
+	}
+	if recv := h.Signature.Recv(); recv != nil {
+		// a method of a named list type: the receiver is the list
+		if _, isSlice := recv.Type().Underlying().(*types.Slice); !isSlice {
+			return 0, 0, false
+		}
 	}
 	li, pi := -1, -1
 	an.Instrs(h, func(in ssa.Instruction) {
@@ -677,4 +683,16 @@ func listRemover(h *ssa.Function) (int, int, bool) {
 		}
 	})
 	return li, pi, ok
+}
+
+// stripChangeType looks through conversions between a named slice type and its underlying type.
+func stripChangeType(v ssa.Value) ssa.Value {
+	for i := 0; i < 4; i++ {
+		ct, ok := v.(*ssa.ChangeType)
+		if !ok {
+			return v
+		}
+		v = ct.X
+	}
+	return v
 }
